@@ -1,6 +1,7 @@
 package main
 
 import (
+	"sync"
 	"fmt"
 	"go/ast"
 	"go/token"
@@ -40,6 +41,9 @@ type Engine struct {
 	funcs   map[string]*ssa.Function // by key
 	keyOf   map[*ssa.Function]string
 	allFns  []*ssa.Function
+	sccOnce sync.Once
+	sccID   map[string]int
+	callAdj map[string][]string
 	modsets map[*ssa.Function]map[string]bool
 
 	dtypes  map[string]*DType
